@@ -383,6 +383,75 @@ def view_history_cases(rng, n_random, full_product):
     return cases, impl
 
 
+# ---- (3b) str NAME indexing of views -------------------------------------------------------------------------------------
+
+def name_cases(rng, n_random):
+    """`view._fixup_item_indices('name')` on body / _body views (whole and every sub-window, with and without docstring) of
+    Module / FunctionDef / ClassDef / If whose statements are defs, classes and plain statements; deterministic product
+    first.  Compared with Pfst.View.nameItem (index relative to the window, docstring offset for `_body`)."""
+    from fst import FST
+    cases, impl = [], []
+
+    def run(hdr, doc, kinds, field, w0, w1, name):
+        body = (['"""doc"""'] if doc else [])
+        names = [None] if doc else []
+        for i, k in enumerate(kinds):
+            if k == 'd':
+                body.append(f'def n{i}(): pass')
+                names.append(f'n{i}')
+            elif k == 'c':
+                body.append(f'class n{i}: pass')
+                names.append(f'n{i}')
+            elif k == 'a':
+                body.append(f'async def n{i}(): pass')
+                names.append(f'n{i}')
+            else:
+                body.append(f's{i} = {i}')
+                names.append(None)
+        if hdr is None:
+            root = FST('\n'.join(body), 'exec')
+            node = root
+        else:
+            node = FST(hdr + '\n' + '\n'.join('    ' + b for b in body), 'exec').body[0]
+        v = getattr(node, field)
+        if w0 is not None:
+            v = v[w0:w1]
+        off = 1 if (doc and field == '_body') else 0
+        c = {'f': 'C03.view_name', 'start': v._start, 'stop': v._stop, 'names': names, 'off': off, 'name': name}
+        try:
+            r = v._fixup_item_indices(name)
+            out = {'item': r[3]} if isinstance(r[3], int) else 'non-direct'
+        except IndexError:
+            out = 'IndexError'
+        cases.append(c)
+        impl.append(out)
+
+    shapes = ['d', 'sd', 'ds', 'sds', 'dcs', 'sdca', 'dsds']
+    for hdr in (None, 'def f():', 'class C:'):
+        for doc in (False, True):
+            for kinds in shapes:
+                for field in ('body', '_body'):
+                    n = len(kinds) + (1 if doc and field == 'body' else 0)
+                    wins = [(None, None)] + [(a, b) for a in range(n + 1) for b in range(a, n + 1)]
+                    for w0, w1 in wins:
+                        for i in range(len(kinds)):
+                            run(hdr, doc, kinds, field, w0, w1, f'n{i}')
+    for _ in range(n_random):
+        kinds = ''.join(rng.choice('dcas') for _ in range(rng.randint(1, 6)))
+        doc = rng.random() < 0.5
+        field = rng.choice(['body', '_body'])
+        n = len(kinds) + (1 if doc and field == 'body' else 0)
+        a = rng.randint(0, n)
+        b = rng.randint(a, n)
+        hdr = rng.choice([None, 'def f():', 'class C:', 'if x:', 'for i in j:'])
+        if hdr in ('if x:', 'for i in j:'):
+            doc = False             # not docstring holders: `_body` is the plain `body` there
+            b = min(b, len(kinds))
+            a = min(a, b)
+        run(hdr, doc, kinds, field, a, b, f'n{rng.randrange(len(kinds))}')
+    return cases, impl
+
+
 # ---- (4) virtual field maps on generated nodes ------------------------------------------------------------------------
 
 def _args_src(np_, na, nd, nv, nk, kwd, nw):
